@@ -838,6 +838,30 @@ example : detectAndParse numericTok
     simp at hr
     rcases hr with rfl | rfl <;> simp at hc <;> rcases hc with rfl | rfl <;> decide
 
+/-! ### named columns of a table -/
+
+/-- **Every requested name holds the values of the file column it designates**, whatever the order in which
+the columns are requested and whichever subset is requested. -/
+theorem selectCols_lookup {β} (t : List (List β)) (sel : List (String × Nat)) (name : String) :
+    (selectCols t sel).lookup name = (sel.lookup name).map (column t) := by
+  unfold selectCols
+  induction sel with
+  | nil => rfl
+  | cons s ss ih =>
+    obtain ⟨k, v⟩ := s
+    simp only [List.map_cons, List.lookup_cons]
+    by_cases h : name = k
+    · subst h; simp
+    · have : (name == k) = false := by simpa using h
+      simp only [this, ih]
+
+-- non-vacuity and the counter-witness for positional naming (seeded defect C20-8): the file is `QE;lambda`
+-- (column 0 = QE, column 1 = wavelength) and the request lists the wavelength first
+example :
+    let t := [[90, 400], [80, 500]]
+    (selectCols t [("wavelength", 1), ("QE", 0)]).lookup "wavelength" = some [some 400, some 500] ∧
+    (selectColsPositional t [("wavelength", 1), ("QE", 0)]).lookup "wavelength" = some [some 90, some 80] := by decide
+
 /-! ### tables regenerated from today's source -/
 
 /-- the separators tried by `load_image`, in the code's order, are the model's -/
